@@ -10,7 +10,7 @@
 //! snapshotted world; `l1..l3` are canaries by their mere existence.
 //!
 //! Names: every sequence of 1..=N components (quick 4, thorough 5) over
-//! {`a`, `.`, `..`, `` (empty), R = absolute root path, X = absolute sibling path}, joined by `/`,
+//! {`a`, `.`, `..`, `` (empty), R = absolute root path, X = absolute sibling path}, joined by `/` (also with the root configured with a trailing separator) or by `\\`,
 //! with and without a leading `/`. (R as first component gives "the root path as a prefix followed
 //! by `..`".) Every name x every entry point (27, see `ops()`) in the populated layout, every name
 //! x the 7 creating entry points in the bare layout; fixed order.
@@ -53,11 +53,23 @@ const CREATING: [&str; 7] = [
 struct Name {
     comps: Vec<u8>,
     lead: bool,
+    /// 0: components joined by `/`; 1: the same with the filestore root configured with a
+    /// trailing separator; 2: components joined (and led) by `\\`, the separator of another
+    /// operating system, which a Unix filestore has to treat as an ordinary character
+    style: u8,
 }
 impl Name {
     fn symbolic(&self) -> String {
         let parts: Vec<&str> = self.comps.iter().map(|&c| match COMPS[c as usize] { "R" => "<root>", "X" => "<root>x", s => s }).collect();
-        format!("{}{}", if self.lead { "/" } else { "" }, parts.join("/"))
+        let sep = self.sep();
+        format!("{}{}{}", if self.lead { sep } else { "" }, parts.join(sep), if self.style == 1 { "   [root configured as <root>/]" } else { "" })
+    }
+    fn sep(&self) -> &'static str {
+        if self.style == 2 {
+            "\\"
+        } else {
+            "/"
+        }
     }
     fn concrete(&self, root: &str) -> String {
         let parts: Vec<String> = self
@@ -69,10 +81,14 @@ impl Name {
                 s => s.to_string(),
             })
             .collect();
-        format!("{}{}", if self.lead { "/" } else { "" }, parts.join("/"))
+        let sep = self.sep();
+        format!("{}{}", if self.lead { sep } else { "" }, parts.join(sep))
     }
     /// root-cause class of a name
-    fn class(&self) -> &'static str {
+    fn class(&self) -> String {
+        format!("{}{}", self.class0(), ["", "+root-with-trailing-separator", "+backslash-separators"][self.style as usize])
+    }
+    fn class0(&self) -> &'static str {
         let has = |s: &str| self.comps.iter().any(|&c| COMPS[c as usize] == s);
         // the first component that is not `.` or empty is what the name "starts with"
         let first = self.comps.iter().map(|&c| COMPS[c as usize]).find(|c| !c.is_empty() && *c != ".").unwrap_or("");
@@ -85,11 +101,11 @@ impl Name {
         }
     }
     fn json(&self) -> Value {
-        json!({"comps": self.comps.iter().map(|&c| COMPS[c as usize]).collect::<Vec<_>>(), "lead": self.lead, "symbolic": self.symbolic()})
+        json!({"comps": self.comps.iter().map(|&c| COMPS[c as usize]).collect::<Vec<_>>(), "lead": self.lead, "style": self.style, "symbolic": self.symbolic()})
     }
     fn from_json(v: &Value) -> Name {
         let comps = v["comps"].as_array().unwrap().iter().map(|c| COMPS.iter().position(|x| Some(*x) == c.as_str()).expect("component") as u8).collect();
-        Name { comps, lead: v["lead"].as_bool().unwrap() }
+        Name { comps, lead: v["lead"].as_bool().unwrap(), style: v["style"].as_u64().unwrap_or(0) as u8 }
     }
 }
 
@@ -106,7 +122,9 @@ fn all_names(max: usize) -> Vec<Name> {
                 x /= 6;
             }
             for lead in [false, true] {
-                out.push(Name { comps: comps.clone(), lead });
+                for style in 0..3u8 {
+                    out.push(Name { comps: comps.clone(), lead, style });
+                }
             }
         }
     }
@@ -302,7 +320,7 @@ struct Fail {
 /// run one (name, op) in the jail; returns failures (empty = fine) and whether a read from
 /// outside the root succeeded
 fn eval(j: &mut Jail, name: &Name, op: &str, verbose: bool) -> Vec<Fail> {
-    let fs_ = NativeFileStore::new(&j.root);
+    let fs_ = if name.style == 1 { NativeFileStore::new(&format!("{}/", j.root)) } else { NativeFileStore::new(&j.root) };
     let n = name.concrete(&j.root);
     let shown = name.symbolic();
     let mut fails = vec![];
@@ -560,7 +578,7 @@ pub fn run(args: &Args) -> Report {
             !under(&resolve(&naive), &fake_res) || matches!(COMPS[n.comps[0] as usize], "R" | "X")
         })
         .count();
-    let by_class: BTreeMap<&str, usize> = names.iter().fold(BTreeMap::new(), |mut m, n| {
+    let by_class: BTreeMap<String, usize> = names.iter().fold(BTreeMap::new(), |mut m, n| {
         *m.entry(n.class()).or_default() += 1;
         m
     });
